@@ -33,6 +33,16 @@ type Driver struct {
 	MaxSize int // largest payload size hint the generator may ask for
 	Open    func(dir string) (Log, error)
 	Gen     func(rng *rand.Rand, id, epoch uint64, size int) Ent
+
+	// Tuning (zero values = the design's rule). They exist because reading a
+	// log costs one read syscall per CBOR header byte in the code under test,
+	// which makes records with many small fields (GMessage) two orders of
+	// magnitude more expensive to re-read than the harness entry.
+	FineCap        int   // largest entry of the "fine" profile (0 = 64 KiB)
+	CutCap         int   // if >0: at most this many cut offsets per history (first/last 64 always kept)
+	ReducedBudget  int64 // bytes of untouched files kept in the reduced crash world (0 = 96 KiB)
+	FullDirCuts    int   // cuts per history replayed on the complete directory when it is big (0 = 8)
+	BulkFinalFresh bool  // bulk profile: the final append always starts a fresh file
 }
 
 // Op is one step of a generated history.
@@ -392,7 +402,15 @@ func (g *epochGen) purgeEpoch(rng *rand.Rand) uint64 {
 	}
 }
 
-func fineSize(rng *rand.Rand, maxSize int) int {
+func fineSize(rng *rand.Rand, drv Driver) int {
+	s := fineSizeN(rng, drv.MaxSize)
+	if drv.FineCap > 0 && s > drv.FineCap {
+		s = drv.FineCap - rng.Intn(drv.FineCap/4+1)
+	}
+	return s
+}
+
+func fineSizeN(rng *rand.Rand, maxSize int) int {
 	var s int
 	switch x := rng.Intn(100); {
 	case x < 25:
@@ -438,33 +456,62 @@ func GenHistory(rng *rand.Rand, drv Driver, profile string) []Op {
 	}
 	switch profile {
 	case "bulk":
-		target := (1200 << 10) + rng.Intn(2400<<10)
+		// an uninterrupted stretch that must cross the rotation threshold, then a mix
+		stretch := 1500 << 10
+		target := stretch + rng.Intn(2000<<10)
 		lo := drv.MaxSize / 6
 		cum := 0
 		for cum < target {
-			if rng.Intn(100) < 12 {
+			if cum > stretch && rng.Intn(100) < 12 {
 				ops = append(ops, other([7]int{2, 3, 1, 3, 6, 1, 1}))
 				continue
 			}
 			s := lo + rng.Intn(drv.MaxSize-lo+1)
-			if rng.Intn(6) == 0 {
-				s = fineSize(rng, drv.MaxSize)
+			if cum > stretch && rng.Intn(6) == 0 {
+				s = fineSize(rng, drv)
 			}
 			cum += s
 			ops = append(ops, Op{Kind: opAppend, Size: s, Epoch: g.next(rng)})
 		}
 	default:
 		n := 12 + rng.Intn(50)
+		probeAt := -1
+		if rng.Intn(100) < 40 {
+			probeAt = rng.Intn(n)
+		}
 		for i := 0; i < n; i++ {
+			if i == probeAt {
+				// directed block for the purge clause: one file whose LAST entry has a
+				// lower epoch than an earlier one, closed by the same instance or by a
+				// restart, then purged at an epoch between the two
+				if rng.Intn(2) == 0 {
+					ops = append(ops, Op{Kind: opRotate})
+				}
+				g.base += 2 + uint64(rng.Intn(3))
+				hi := g.base
+				lo := hi - 1 - uint64(rng.Intn(2))
+				g.seen = append(g.seen, hi, lo)
+				g.max = max(g.max, hi)
+				ops = append(ops, Op{Kind: opAppend, Size: fineSizeN(rng, 400), Epoch: hi}, Op{Kind: opAppend, Size: fineSizeN(rng, 400), Epoch: lo})
+				ops = append(ops, Op{Kind: []string{opRotate, opCloseContinue, opCloseReopen, opCrashReopen}[rng.Intn(4)]})
+				if rng.Intn(3) == 0 {
+					ops = append(ops, Op{Kind: opAppend, Size: fineSizeN(rng, 400), Epoch: g.next(rng)})
+				}
+				ops = append(ops, Op{Kind: opPurge, Epoch: lo + 1 + uint64(rng.Intn(int(hi-lo)))})
+			}
 			if rng.Intn(100) < 55 {
-				ops = append(ops, Op{Kind: opAppend, Size: fineSize(rng, drv.MaxSize), Epoch: g.next(rng)})
+				ops = append(ops, Op{Kind: opAppend, Size: fineSize(rng, drv), Epoch: g.next(rng)})
 			} else {
 				ops = append(ops, other([7]int{8, 8, 4, 8, 11, 2, 4}))
 			}
 		}
 	}
 	// where the final append lands: a fresh file, or the file being written
-	switch rng.Intn(6) {
+	where := rng.Intn(6)
+	if profile == "bulk" && drv.BulkFinalFresh {
+		where %= 3
+	}
+	switch where {
 	case 0:
 		ops = append(ops, Op{Kind: opRotate})
 	case 1:
@@ -474,7 +521,7 @@ func GenHistory(rng *rand.Rand, drv Driver, profile string) []Op {
 	default:
 		if rng.Intn(2) == 0 {
 			// make sure something precedes the final record in its file
-			ops = append(ops, Op{Kind: opAppend, Size: fineSize(rng, min(drv.MaxSize, 2000)), Epoch: g.next(rng)})
+			ops = append(ops, Op{Kind: opAppend, Size: fineSizeN(rng, min(drv.MaxSize, 2000)), Epoch: g.next(rng)})
 		}
 	}
 	var fs int
@@ -490,6 +537,9 @@ func GenHistory(rng *rand.Rand, drv Driver, profile string) []Op {
 			fs = 600 + rng.Intn(3480)
 		default:
 			fs = 4100 + rng.Intn(max(1, min(drv.MaxSize, 100<<10)-4100))
+			if drv.FineCap > 0 {
+				fs = 4100 + rng.Intn(max(1, drv.FineCap))
+			}
 		}
 	}
 	if fs > drv.MaxSize {
@@ -512,10 +562,11 @@ func hashOps(drv string, ops []Op) uint64 {
 
 // RunHistory executes case caseNo (seeded by seed) under root (a scratch
 // directory owned by the caller) and returns the counters it measured.
-func RunHistory(drv Driver, caseNo int, seed int64, root string, bulkPercent int, sink Sink) (Stats, map[string]any) {
+// Every bulkEvery-th case is of the "bulk" profile.
+func RunHistory(drv Driver, caseNo int, seed int64, root string, bulkEvery int, sink Sink) (Stats, map[string]any) {
 	rng := rand.New(rand.NewSource(seed))
 	prof := "fine"
-	if rng.Intn(100) < bulkPercent {
+	if bulkEvery > 0 && caseNo%bulkEvery == bulkEvery-1 {
 		prof = "bulk"
 	}
 	ops := GenHistory(rng, drv, prof)
@@ -657,6 +708,18 @@ func (h *history) tornEnumerate(w *world, tail *mFile, b, a int64, final *mEnt, 
 	listing := listDir(w.dir)
 	srcTail := filepath.Join(w.dir, tail.name)
 	cuts, exhaustive := cutOffsets(h.rng, b, a)
+	if cp := h.drv.CutCap; cp > 0 && len(cuts) > cp && len(cuts) > 130 {
+		// keep the first/last 64 offsets, sample the rest
+		keep := append([]int64{}, cuts[:64]...)
+		mid := cuts[64 : len(cuts)-64]
+		for _, i := range h.rng.Perm(len(mid))[:max(0, min(len(mid), cp-128))] {
+			keep = append(keep, mid[i])
+		}
+		keep = append(keep, cuts[len(cuts)-64:]...)
+		sort.Slice(keep, func(i, j int) bool { return keep[i] > keep[j] })
+		cuts, exhaustive = keep, false
+		h.st.add("final_records_cut_capped_by_tuning", 1)
+	}
 	if exhaustive {
 		h.st.add("final_records_cut_exhaustively", 1)
 	} else {
@@ -717,7 +780,10 @@ func (h *history) tornEnumerate(w *world, tail *mFile, b, a int64, final *mEnt, 
 	}
 	full := mk("torn-full", fullSet)
 	var reduced *tornWorld
-	const budget = 96 << 10
+	budget := int64(96 << 10)
+	if h.drv.ReducedBudget > 0 {
+		budget = h.drv.ReducedBudget
+	}
 	if otherBytes > budget {
 		redSet := map[string]bool{tail.name: true}
 		var cum int64
@@ -737,7 +803,14 @@ func (h *history) tornEnumerate(w *world, tail *mFile, b, a int64, final *mEnt, 
 				fullCuts[cuts[i]] = true
 			}
 		}
-		for k := 0; k < 4; k++ {
+		nfull := 8
+		if h.drv.FullDirCuts > 0 {
+			nfull = h.drv.FullDirCuts
+		}
+		if nfull < 4 {
+			fullCuts = map[int64]bool{cuts[0]: true, cuts[len(cuts)-1]: true}
+		}
+		for k := 4; k < nfull; k++ {
 			fullCuts[cuts[h.rng.Intn(len(cuts))]] = true
 		}
 	}
@@ -854,12 +927,20 @@ func (h *history) tornCase(tw *tornWorld, tailName, srcTail string, finalID uint
 	if !restart("torn:second-restart") {
 		return
 	}
-	// 4. append, (sometimes purge), restart a third time, read
+	// 4. on a quarter of the cuts (and the extreme ones): append, (often purge),
+	// restart a third time, read
+	if !(ci < 2 || cut <= b+1 || rng.Intn(4) == 0) {
+		if len(h.nviol) == before {
+			h.st.add("torn_cases_clean", 1)
+		}
+		return
+	}
+	h.st.add("torn_cases_with_third_restart", 1)
 	n2 := h.drv.Gen(rng, idBase+1, epochNear(), rng.Intn(200))
 	if _, _, _, ok := w.appendEnt(n2, "torn:append-after-second-restart", false); !ok {
 		return
 	}
-	if rng.Intn(6) == 0 {
+	if rng.Intn(2) == 0 {
 		var e uint64
 		switch rng.Intn(4) {
 		case 0:
